@@ -130,4 +130,121 @@ def run {α} : List (Op α) → Cols α → Option (Cols α)
     | some c' => run ops c'
     | none => none
 
+/-! ### typed construction (`_implicit_format_conversion`): "converted to the declared type, or raises"
+
+The dispatch itself is tabulated from the running code (`Gen/C19.lean`: field kind × argument form ↦
+class of the stored column or `raise`). Here: which column classes *are* the declared type of a field
+kind, and the cells known not to conform (the `known` findings `construct:unconverted-*`). -/
+
+/-- column classes that count as "the declared type" of a field kind -/
+def allowedClasses : String → List String
+  | "str" => ["encragged:base", "encragged:alpha", "encflat:base", "encflat:alpha"]
+  | "sid" => ["stringarray", "encflat:base", "encflat:alpha"]
+  | "int" | "float" | "bool" => ["ndarray:b", "ndarray:i", "ndarray:u", "ndarray:f"]
+  | "opt" => ["ndarray:b", "ndarray:i", "ndarray:u", "ndarray:f", "ndarray:O"]
+  | "li" => ["ragged:b", "ragged:i", "ragged:u", "ragged:f", "ndarray:b", "ndarray:i", "ndarray:u", "ndarray:f"]
+  | "dna" => ["encragged:alpha", "encflat:alpha"]
+  | "strand" => ["encflat:alpha"]
+  | "inner" => ["table"]
+  | _ => []
+
+/-- (field kind, argument form) cells where the shipped constructor stores the argument unconverted
+(recorded findings; anything else must convert or raise) -/
+def knownUnconverted : List (String × String) := [
+  ("opt", "list_str"), ("opt", "nd_str"), ("opt", "strand_str"),
+  ("li", "list_str"), ("li", "nd_str"), ("li", "series_str"), ("li", "strand_str"), ("li", "encoded_ragged"),
+  ("li", "dna_ragged"), ("li", "list_none"), ("li", "string_array"), ("li", "table"), ("li", "list_entries"),
+  ("inner", "nd_int"), ("inner", "nd_float"), ("inner", "nd_bool"), ("inner", "nd_str"), ("inner", "encoded_ragged"),
+  ("inner", "dna_ragged"), ("inner", "string_array"), ("inner", "ragged_int"), ("inner", "series_str"), ("inner", "series_int")]
+
+def constructCellOK (row : String × String × String) : Bool :=
+  row.2.2 == "raise" || (allowedClasses row.1).contains row.2.2 || knownUnconverted.contains (row.1, row.2.1)
+
+/-- first cell that neither converts nor raises (handed to the search) -/
+def firstBadCell (t : List (String × String × String)) : Option (String × String × String) :=
+  t.find? (fun r => !constructCellOK r)
+
+
+/-! ### `todict` / `from_dict`: nested tables ↔ flat dictionaries with dotted keys -/
+
+abbrev Name := List Nat          -- the bytes of a field name
+def dot : Nat := 46
+
+/-- a field value: a column, or a nested table (its fields in order) -/
+inductive Tab (α : Type) where
+  | col (c : List α)
+  | tab (fields : List (Name × Tab α))
+
+/-- the declared types: leaf column or nested table class -/
+inductive Schema where
+  | leaf
+  | node (fields : List (Name × Schema))
+
+mutual
+/-- `todict` of the fields of a table: `name` for a column, `name.sub` for every entry of a nested table's dict -/
+def toDictFields {α} : List (Name × Tab α) → List (Name × List α)
+  | [] => []
+  | (n, t) :: rest => toDictVal n t ++ toDictFields rest
+def toDictVal {α} (n : Name) : Tab α → List (Name × List α)
+  | .col c => [(n, c)]
+  | .tab fs => (toDictFields fs).map (fun kv => (n ++ dot :: kv.1, kv.2))
+end
+
+/-- `name.split('.', maxsplit=1)` when the key contains a dot -/
+def split1 (k : Name) : Option (Name × Name) :=
+  if k.contains dot then some (k.takeWhile (· != dot), (k.dropWhile (· != dot)).drop 1) else none
+
+/-- the entries `name.sub ↦ v` of the dict, as the sub-dict `sub ↦ v` (`new_dict[name][sub] = value`) -/
+def subDict {α} (n : Name) (d : List (Name × List α)) : List (Name × List α) :=
+  d.filterMap (fun kv => match split1 kv.1 with
+    | some (n', sub) => if n' = n then some (sub, kv.2) else none
+    | none => none)
+
+/-- the keys without a dot: the only ones stored under their own name (`new_dict[name] = value`) -/
+def plainDict {α} (d : List (Name × List α)) : List (Name × List α) := d.filter (fun kv => !(kv.1.contains dot))
+
+mutual
+/-- `cls.from_dict(d)` for the fields of `cls`: a leaf takes `d[name]` (`AssertionError` = none when absent),
+a nested-table field is rebuilt from the sub-dict of its dotted keys -/
+def fromDictFields {α} : List (Name × Schema) → List (Name × List α) → Option (List (Name × Tab α))
+  | [], _ => some []
+  | (n, s) :: rest, d =>
+    match fromDictVal n s d, fromDictFields rest d with
+    | some v, some vs => some ((n, v) :: vs)
+    | _, _ => none
+def fromDictVal {α} (n : Name) : Schema → List (Name × List α) → Option (Tab α)
+  | .leaf, d => ((plainDict d).lookup n).map Tab.col
+  | .node fs, d => (fromDictFields fs (subDict n d)).map Tab.tab
+end
+
+
+/-- the part of a key before its first dot -/
+def firstComp (k : Name) : Name := k.takeWhile (· != dot)
+
+def dotFree (n : Name) : Prop := dot ∉ n
+
+mutual
+/-- field names are dot-free identifiers, distinct inside every (nested) table -/
+def wfFields {α} : List (Name × Tab α) → Prop
+  | [] => True
+  | (n, t) :: rest => dotFree n ∧ (∀ p ∈ rest, p.1 ≠ n) ∧ wfVal t ∧ wfFields rest
+def wfVal {α} : Tab α → Prop
+  | .col _ => True
+  | .tab fs => wfFields fs
+end
+
+mutual
+/-- the class of a table: its field names and declared (leaf / nested) types -/
+def schemaFields {α} : List (Name × Tab α) → List (Name × Schema)
+  | [] => []
+  | (n, t) :: rest => (n, schemaVal t) :: schemaFields rest
+def schemaVal {α} : Tab α → Schema
+  | .col _ => .leaf
+  | .tab fs => .node (schemaFields fs)
+end
+
+/-- no key of `d` belongs to field `n` -/
+def Clean {α} (n : Name) (d : List (Name × List α)) : Prop := ∀ kv ∈ d, firstComp kv.1 ≠ n
+
+
 end C19
